@@ -87,6 +87,33 @@ def discharge_panic(crate, s):
         if len(ta) >= 2 and ta[1]["s"] == "usize" and (ta[0]["k"] == "slice" or (ta[0]["k"] == "adt" and ta[0]["name"] == "Vec")):
             C = strip_ref(an.arg_for_call(ev["args"][0], ev["vers"], True, {"k": "ref"}))
             return bool(bounded(crate, an, fx, b, ev["args"][1], C, vers=ev["vers"]))
+        if len(ta) >= 2 and ta[1]["k"] == "adt" and ta[1].get("path", "").startswith("core::ops::range::") and \
+                (ta[0]["k"] == "slice" or (ta[0]["k"] == "adt" and ta[0]["name"] == "Vec")):
+            # slicing: &c[a..b] panics unless a <= b <= len; &c[a..] unless a <= len; &c[..b] unless b <= len
+            from .core import mk_len
+            C = strip_ref(an.arg_for_call(ev["args"][0], ev["vers"], True, {"k": "ref"}))
+            L = mk_len(C, an)
+            R = ev["args"][1]
+            nm = ta[1]["name"]
+            if nm == "RangeFull":
+                return True
+            if not (R[0] == "agg" and R[1] == "adt"):
+                return False
+            ops = R[3]
+
+            def le(x, y):
+                if x[0] == "const" and x[2] == 0:
+                    return True
+                return fx.holds(b, lambda rel: rel.le(x, y))
+            if nm == "RangeTo" and len(ops) == 1:
+                return le(ops[0], L)
+            if nm == "RangeFrom" and len(ops) == 1:
+                return le(ops[0], L)
+            if nm == "Range" and len(ops) == 2:
+                return le(ops[0], ops[1]) and le(ops[1], L)
+            if nm == "RangeToInclusive" and len(ops) == 1:
+                return fx.holds(b, lambda rel: rel.lt(ops[0], L))
+            return False
         return False
     return False
 
